@@ -76,6 +76,14 @@ def run(r: Run):
             muts.append("".join(t))
     variants = ["C[013]", "C[+13]", "C[0]", "Ac[0]", "C[65549]", "C[99999999999999999999]", "Cl[37]", "Cl[+37]", "e*", "e*[0]", "H+",
                 "Uuh", "Uuh[0]", "U[238]", "C[13]]", "C[[13]", "[C]", "]", "[", "C[1 3]", "C[13] ", " C", "😀", "😀]", "a😀"]
+    # X[n] for every n around the element's isotope range that is not one of its isotopes
+    kd = {}
+    for s_, i_ in keys:
+        kd.setdefault(s_, []).append(i_)
+    for s_, isos in kd.items():
+        real = [i for i in isos if i != 0]
+        if real:
+            variants += [f"{s_}[{n}]" for n in range(max(1, min(real) - 2), max(real) + 3) if n not in real]
     rnd = ["".join(rng.choice(ALPHABET + ["H", "O", "0", "3", "e", "*"]) for _ in range(rng.randint(7, 24))) for _ in range(2000 if thorough else 300)]
     allstr = strings + variants + exhaustive + muts + rnd
     plines = [f"parse\t{cps(s)}" for s in allstr]
